@@ -30,14 +30,14 @@ Example C03_owner_history :
   | _ => False end.
 Proof. vm_compute. reflexivity. Qed.
 
-(* from the global invariant (PARTIAL: for histories of the operations `covered`, see C02.v): with no handle left every heap buffer and every
+(* from the global invariant (C02.v; all 46 operations, every history, every oracle): with no handle left every heap buffer and every
    owner's memory has been released; a freed storage is referenced by no handle; a live reference count is the number of handles *)
-Theorem C03_released_after_last_handle_partial : forall orcs n s k st, reach orcs n s -> hs s = ∅ -> sts s !! k = Some st ->
+Theorem C03_released_after_last_handle : forall orcs n s k st, reach orcs n s -> hs s = ∅ -> sts s !! k = Some st ->
   (s_cls st = SHeap \/ s_cls st = SOwnerMem) -> s_live st = false.
 Proof. intros orcs n s k st Hr. apply wf_no_leak. by eapply reach_wf. Qed.
-Theorem C03_freed_storage_unreferenced_partial : forall orcs n s k st h x, reach orcs n s -> sts s !! k = Some st -> s_live st = false -> hs s !! h = Some x -> holds x <> Some k.
+Theorem C03_freed_storage_unreferenced : forall orcs n s k st h x, reach orcs n s -> sts s !! k = Some st -> s_live st = false -> hs s !! h = Some x -> holds x <> Some k.
 Proof. intros orcs n s k st h x Hr. apply wf_dead_unreferenced. by eapply reach_wf. Qed.
-Theorem C03_count_is_number_of_handles_partial : forall orcs n s k st cap rc, reach orcs n s -> sts s !! k = Some st -> s_live st = true -> s_ctrl st = CShared cap rc ->
+Theorem C03_count_is_number_of_handles : forall orcs n s k st cap rc, reach orcs n s -> sts s !! k = Some st -> s_live st = true -> s_ctrl st = CShared cap rc ->
   rc = N.of_nat (refs (hs s) k).
 Proof. intros orcs n s k st cap rc Hr. apply wf_count_is_holders. by eapply reach_wf. Qed.
 
@@ -45,6 +45,6 @@ Print Assumptions C03_release_never_panics_partial.
 Print Assumptions C03_drop_never_panics_partial.
 Print Assumptions C03_drops_never_allocate_partial.
 Print Assumptions C03_owner_history.
-Print Assumptions C03_released_after_last_handle_partial.
-Print Assumptions C03_freed_storage_unreferenced_partial.
-Print Assumptions C03_count_is_number_of_handles_partial.
+Print Assumptions C03_released_after_last_handle.
+Print Assumptions C03_freed_storage_unreferenced.
+Print Assumptions C03_count_is_number_of_handles.
